@@ -21,6 +21,7 @@ Theorem C17_single_member : forall m0,
   str_eqb (pk_key (g_vn m0)) Either = true \/ str_eqb (pk_key (g_vn m0)) BothEq = true ->
   exists r, eval_group [m0] = [CField (g_obj m0) (g_field m0) (FRuleErr r)].
 Proof. exact single_member_is_rule_error. Qed.
+Print Assumptions C17_single_member.
 Print Assumptions C17_either.
 Print Assumptions C17_botheq.
 
@@ -32,6 +33,7 @@ Proof. exact gkey_inj. Qed.
 Theorem C17_independent : forall ms,
   eval_groups ms = flat_map (fun k => eval_group (filter (fun m => str_eqb (g_key m) k) ms)) (group_keys ms []).
 Proof. exact groups_independent. Qed.
+Print Assumptions C17_independent.
 Print Assumptions C17_group_key_injective.
 
 (* every member recorded while validating an object carries that object's path (struct input) *)
@@ -40,3 +42,4 @@ Theorem C17_members_of_their_object : forall c fuel sn v g b, wf_val v = true ->
     exists cs gs, b_cl b' = cs ++ b_cl b /\ b_gr b' = gs ++ b_gr b /\
                   Forall (under sn) cs /\ Forall (gunder sn) gs.
 Proof. exact clause_paths_extend. Qed.
+Print Assumptions C17_members_of_their_object.
